@@ -1,10 +1,10 @@
 SPECIFICATION Spec
 CONSTANTS
-  Family = "stoprace"
+  Family = "stopfirst"
   MaxEm = 3
   EvPerEm = 2
   FixD3 = TRUE
   FixD10 = TRUE
-  FixD12 = FALSE
-  FixD17 = TRUE
+  FixD12 = TRUE
+  FixD17 = FALSE
 INVARIANT C06_AllExitedAfterJoin
